@@ -144,6 +144,25 @@ func cmdCheck(args []string) {
 		}
 	}
 	all = append(all, w.lemmaObligations(func(l *Lemma) bool { return hasProp(l.Props, prop) })...)
+	if prop == "C09" {
+		// zero-annotation frame sweep over every function of the library (sweep.go)
+		n, fs := w.sweep()
+		bad := map[string][]sweepFinding{}
+		for _, f := range fs {
+			bad[f.Func] = append(bad[f.Func], f)
+		}
+		all = append(all, &Obligation{Name: "sweep#frame.no_shared_state.all_functions", Func: "sweep", Kind: "sweep", Props: []string{prop},
+			Src: fmt.Sprintf("%d functions of /repo/lib scanned for writes to package-level variables, ambient state and concurrency primitives", n),
+			Goal: TTrue, Result: "unsat", Solver: "syntactic"})
+		for fn, ff := range bad {
+			var ws []string
+			for _, f := range ff {
+				ws = append(ws, f.Kind+": "+f.What+" ("+f.Pos+")")
+			}
+			all = append(all, &Obligation{Name: fn + "#sweep.no_shared_state", Func: fn, Kind: "sweep", Props: []string{prop},
+				Src: strings.Join(ws, "; "), Goal: TFalse, Result: "sat", Solver: "syntactic", Model: strings.Join(ws, "\n")})
+		}
+	}
 	dir := filepath.Join(outRoot, "out", prop)
 	os.RemoveAll(dir)
 	dischargeAll(w.x.U, all, dir, timeout, confirm, 10)
